@@ -303,6 +303,13 @@ template <class C> struct Ctx {
       vf_assert(w.data() == data0, 5004);
       vf_assert(g_alloc_calls == alloc0, 5001);
     }
+    if (C::kind != KIND_FIXED && exc == EXC_NONE && !(flags & (F_MAY_SHRINK | F_HANDOVER | F_RESERVE)) && cp > cap0) {
+      // C18: a vector that has to grow without a prior reserve grows by the factor 1.5 of its CAPACITY (or to what is needed, if more)
+      unsigned geo = (3u * cap0 + 1u) / 2u;
+      unsigned lim = static_cast<unsigned>(std::numeric_limits<S>::max());
+      if (geo > lim) geo = lim;
+      vf_assert(cp >= geo && cp >= m.n, 18010);
+    }
 #ifdef VF_RELOC
     // C14: the byte-relocated container has the same contents, supports the operation and keeps its ledgers balanced
     if (exc == EXC_NONE) check_contents_as<14000>(m);
